@@ -606,15 +606,15 @@ def run(chk):
     chk.rule("R01.9", "mean motion <-> semi-major axis pair inverse and equal to Infos.n")
     chk.rule("R01.12", "Infos quantities obey their defining relations (term algebra)")
     ft = FormTable(chk)
-    r01_1(chk, ft)
-    r01_2(chk, ft)
-    r01_3(chk, ft)
-    r01_4(chk, ft)
-    r01_5(chk, ft)
-    r01_6(chk, ft)
-    r01_8(chk, ft)
-    r01_9(chk, ft)
-    r01_12(chk)
+    chk.guard(r01_1, chk, ft)
+    chk.guard(r01_2, chk, ft)
+    chk.guard(r01_3, chk, ft)
+    chk.guard(r01_4, chk, ft)
+    chk.guard(r01_5, chk, ft)
+    chk.guard(r01_6, chk, ft)
+    chk.guard(r01_8, chk, ft)
+    chk.guard(r01_9, chk, ft)
+    chk.guard(r01_12, chk)
     chk.assume("positive-atom assumption: sqrt(x²)=x and |x|=x for the atoms r, a, e, cos φ (elements in their documented ranges)")
     chk.assume("angles are compared modulo 2π")
     chk.assume("textbook definitions: vis-viva, p = a(1−e²), flight-path angle cos γ = sqrt(µ/p)(1+e cos ν)/v, sin γ = sqrt(µ/p) e sin ν / v")
